@@ -739,12 +739,24 @@ EDGE_SIZES = [255, 256, 257, 32767, 32768, 32769, 65534, 65535, 65536, 65537, 65
 SLOW_HUGE = ['split', 'trim', 'trimd']       # linear since the reference reverses with frev (round 5)
 
 
+HUGE_KINDS = ['substrd', 'substr', 'tokc', 'toks', 'copy', 'asg', 'apps', 'pres', 'preb', 'appo', 'preo', 'findc', 'findlc', 'finds', 'findls',
+              'cmp', 'join', 'plus', 'len', 'cstr', 'lower', 'reps', 'printfs'] + SLOW_HUGE
+
+
 def huge_cases(rng, count):
+    # systematic part: every operation kind meets a value longer than 2^16 once and a value at another boundary once;
+    # the rest of the budget is random
+    plan = []
+    groups = [HUGE_KINDS[i:i + 4] for i in range(0, len(HUGE_KINDS), 4)]
+    small = [32768, 32769, 256, 257, 65535, 32767, 255, 65534]
+    for gi, g in enumerate(groups):
+        plan.append((rng.choice([65536, 65537, 65540, 70000]), list(g)))
+        plan.append((small[gi % len(small)], list(g)))
+    while len(plan) < count:
+        plan.append((rng.choice(EDGE_SIZES[3:]), rng.sample(HUGE_KINDS, 4)))
     out = []
-    for i in range(count):
-        n = EDGE_SIZES[i % len(EDGE_SIZES)] if i < 2 * len(EDGE_SIZES) else rng.choice(EDGE_SIZES[3:])
+    for n, tail in plan:
         c = rng.choice([0x61, 0x7a, 0x80])
-        sep = 0x2c
         ops = []
         how = rng.randrange(3)
         if how == 0:
@@ -753,11 +765,9 @@ def huge_cases(rng, count):
             ops += ['fill %d %d' % (n - 3, c), 'appb 0 %s' % hexs(bytes([c, 0x62, c]))]
         else:
             ops += ['buf 6162', 'resize 0 %d %d' % (n, c)]
-        # a marker near the end and a separator in the middle: positions above the boundary are answers too
+        # a marker near the end: positions above the boundary are answers too
         pos = rng.choice([n - 1, n - 2, n // 2 + 1])
         ops.append('poke 0 %d %d' % (pos, 0x51))
-        tail = rng.sample(['substrd', 'substr', 'tokc', 'toks', 'copy', 'asg', 'apps', 'pres', 'preb', 'appo', 'preo',
-                           'findc', 'findlc', 'finds', 'findls', 'cmp', 'join', 'plus', 'len', 'cstr', 'lower', 'reps', 'printfs'] + SLOW_HUGE, 4)
         nv = 1
         for t_ in tail:
             if t_ == 'substrd': ops.append('substrd 0 %d' % rng.choice([0, 1, -n, -(n - 1)])); nv += 1
@@ -967,7 +977,7 @@ class C06(Check):
             k = next((i for i, l in enumerate(s) if l.startswith('! not-accepted')), None)
             cut.append(k)
             trimmed.append(list(c) if k is None else list(c[:k]))
-        obs, crashes = super().run_impl(trimmed, tag)
+        obs, crashes = self.run_impl_bounded(trimmed, tag)
         # sanitizer reports the shared classifier does not name: reads of the poisoned guard areas
         # next to foreign memory, and a negative length handed to memcpy
         for i, (kind, err) in crashes.items():
@@ -977,6 +987,35 @@ class C06(Check):
         for i, k in enumerate(cut):
             if k is not None and obs[i] and obs[i][-1].startswith('end'):
                 obs[i] = obs[i][:-1] + ['! not-accepted', obs[i][-1]]
+        return obs, crashes
+
+    # A tree on which (nearly) every case crashes or hangs costs a harness restart / a watchdog second per case: give up a
+    # stream after ~150 crashes (a time-out counts 4), and once ~450 have been seen in the whole run look at only the first
+    # cases of each later stream.  What was not run is marked '! notrun' (vf drops those cases from the stream).
+    STREAM_BUDGET, RUN_BUDGET, AFTER_BUDGET = 150, 450, 12
+
+    def run_impl_bounded(self, cases, tag):
+        if tag.startswith('shr_') or len(cases) <= self.AFTER_BUDGET:
+            return super().run_impl(cases, tag)
+        cost = lambda cr: sum(4 if k == 'timeout' else 1 for (k, _) in cr.values())
+        obs, crashes = [], {}
+        spent = getattr(self, 'crash_cost', 0)
+        a, chunk, used = 0, (self.AFTER_BUDGET if spent >= self.RUN_BUDGET else self.STREAM_BUDGET), 0
+        while a < len(cases):
+            o, c = super().run_impl(cases[a:a + chunk], tag)
+            obs += o
+            crashes.update({a + k: v for k, v in c.items()})
+            a += chunk
+            used = cost(crashes)
+            if used >= self.STREAM_BUDGET or spent >= self.RUN_BUDGET:
+                break
+            # a clean first chunk: the rest in one go (vf itself stops a stream after 400 restarts); else go on in small steps
+            chunk = len(cases) if used == 0 else 4 * self.STREAM_BUDGET
+        self.crash_cost = spent + used
+        if a < len(cases):
+            from vf import log
+            log('C06: stream %s given up after %d crashes / time-outs: %d cases not run' % (tag, len(crashes), len(cases) - a))
+            obs += [['! notrun'] for _ in range(len(cases) - a)]
         return obs, crashes
 
     def shrink(self, case, pred, budget=400):
@@ -1087,7 +1126,7 @@ class C06(Check):
             if t[0] == 'stat' and t[2] == t[3]: feats.add('self')
         muts = sum(1 for l in case if l.split()[0] not in ('new', 'lit', 'buf', 'fill', 'cap', 'reg', 'eq', 'len', 'cmp', 'findc', 'findlc', 'starts', 'ends',
                                                             'eqlit', 'stat', 'splitset', 'fromprintf', 'frombool', 'fromcstr', 'fromcstrn',
-                                                            'tobool', 'char'))
+                                                            'tobool', 'char', 'splitd', 'splitsetd'))
         return len(feats) >= 2 and muts >= 3
 
     def extra_checks(self, tier, rng, ctx):
